@@ -122,6 +122,7 @@ broadcast use {location_hash::axiom_program_location_obeys_key_model, vstd::std_
 //@ include units/C12/rd_spec.rs
 //@ include units/C12/rd_analysis.rs
 //@ include units/C12/rd_theory.rs
+//@ include units/C12/rd_chains.rs
 proof fn vf_canary_reaching_definitions() ensures false {}
 } // mod reaching_definitions
 pub use self::reaching_definitions::reaching_definitions;
